@@ -323,6 +323,9 @@ fn sc_create_pool_classes(t: &mut Tracer, cfg: SysCfg, name: &str) {
     w.create_pool(&b, &["uusdc", "uusdt"], &[6, 6, 6], f0.clone(), CP, Some("dec3"), &ok);
     w.create_pool(&b, &["uusdc", "uusdt"], &[6, 6], f0.clone(), SS(0), Some("amp0"), &ok);
     w.create_pool(&b, &["uom", "uusd", "uusdc", "uusdt", "uweth"], &[6, 6, 6, 6, 6], f0.clone(), SS(10), Some("five"), &ok);
+    // a stableswap "pool" of a single asset
+    w.create_pool(&b, &["uusdc"], &[6], f0.clone(), SS(85), Some("single"), &ok);
+    w.create_pool(&b, &["uusdc"], &[6], f0.clone(), CP, Some("singlecp"), &ok);
     // fee boundaries: each < 100%, total <= 20%
     w.create_pool(&b, &["uusdc", "uusdt"], &[6, 6], fees(100_000, 0, 0, &[]), CP, Some("fee100"), &ok);
     w.create_pool(&b, &["uusdc", "uusdt"], &[6, 6], fees(10_000, 10_000, 1, &[]), CP, Some("fee20plus"), &ok);
@@ -492,6 +495,16 @@ fn sc_swaps_and_routes(t: &mut Tracer) {
         w.route(&tr, &rr, &[coin(amt, "uusdc")], None, None, half);
         w.route(&tr, &back, &[coin(amt.min(100_000), "uom")], None, None, half);
     }
+    // a pool visited twice in the same direction with another pool in between (priced on its current reserves both times),
+    // on a constant-product and on a stableswap pool
+    for amt in [1_000_000u128, 50_000_000_000] {
+        w.route(&tr, &[h("o.cp1", "uusdc", "uusdt"), h("o.ss3", "uusdt", "uusd"), h("o.ss1", "uusd", "uusdc"), h("o.cp1", "uusdc", "uusdt")], &[coin(amt, "uusdc")], None, None, half);
+        w.route(&tr, &[h("o.ss3", "uusd", "uusdt"), h("o.cp1", "uusdt", "uusdc"), h("o.ss1", "uusdc", "uusd"), h("o.ss3", "uusd", "uusdt")], &[coin(amt, "uusd")], None, None, half);
+        w.route(&tr, &[h("o.ss3", "uusd", "uusdt"), h("o.ss3", "uusdt", "uweth")], &[coin(amt, "uusd")], None, None, half);
+    }
+    // funds in a denom other than the first hop's declared input, which the first pool holds as well: refused
+    w.route(&tr, &[h("o.ss3", "uusd", "uweth")], &[coin(1_000_000, "uusdt")], None, None, half);
+    w.route(&tr, &[h("o.ss3", "uusd", "uweth"), h("o.cp2", "uweth", "uusdt")], &[coin(1_000_000, "uusdt")], None, None, half);
     // minimum_receive exactly met / one more than the quote
     let q: Result<pm::SimulateSwapOperationsResponse, String> = w.s.query(&w.s.pool, &pm::QueryMsg::SimulateSwapOperations {
         offer_amount: Uint128::new(1_000_000),
